@@ -108,8 +108,8 @@ walk:
 		if err != nil {
 			continue
 		}
-		if in.Details.String() != ref.Details.String() || in.Type != ref.Type {
-			return &eng.Fail{Sig: "Parse details", What: fmt.Sprintf("instruction at %#x is %q, front end says %q", w.addr, in.Details.String(), ref.Details.String()), Case: c}, true
+		if detailsText2(in.Details) != detailsText2(ref.Details) || in.Type != ref.Type {
+			return &eng.Fail{Sig: "Parse details", What: fmt.Sprintf("instruction at %#x is %q, front end says %q", w.addr, detailsText2(in.Details), detailsText2(ref.Details)), Case: c}, true
 		}
 		if len(in.Effects) != len(ref.Effects) {
 			return &eng.Fail{Sig: "Parse effect-count", What: fmt.Sprintf("instruction at %#x has %d effects, lifting has %d", w.addr, len(in.Effects), len(ref.Effects)), Case: c}, true
@@ -207,4 +207,11 @@ func init() {
 			return f
 		},
 	}
+}
+
+func detailsText2(d interface{ String() string }) (txt string) {
+	if p, _ := eng.Catch(func() { txt = d.String() }); p != nil {
+		return fmt.Sprintf("<String() panics: %v>", p)
+	}
+	return txt
 }
